@@ -701,6 +701,41 @@ fn run_c08(args: &Args, corr: &mut Corr, rep: &mut Report) {
     let t0 = std::time::Instant::now();
     let thorough = args.tier == "thorough";
     let seed = args.seed;
+    // ---- (0) the derived configuration (`params` after `ensure_initialized`, pub fields): SanitizeParams,
+    // ComputeLgBlock, ring-buffer bits over the whole quality x lgwin x requested-lgblock grid; the oracle
+    // is the property's own premise: at quality >= 2 an input block is at least 2^14 bytes
+    {
+        let lgbs: [i32; 14] = [-3, 0, 1, 10, 13, 14, 15, 16, 17, 18, 20, 24, 25, 31];
+        for q in -2..=13i32 {
+            for lgwin in -5..=40i32 {
+                for &lgb in &lgbs {
+                    for lw in [false, true] {
+                        rep.evaluations += 1;
+                        let r = catch_unwind(AssertUnwindSafe(|| {
+                            let mut s = BrotliEncoderStateStruct::new(StandardAlloc::default());
+                            s.params.quality = q; s.params.lgwin = lgwin; s.params.lgblock = lgb; s.params.large_window = lw;
+                            let bs = s.input_block_size();
+                            let out = (s.params.quality, s.params.lgwin, s.params.lgblock, s.ringbuffer_.size_, bs);
+                            BrotliEncoderDestroyInstance(&mut s);
+                            out
+                        }));
+                        match r {
+                            Err(_) => { corr.case(&format!("header lgblock {} {} {} {}", q, lgwin, lgb, b(lw)), "panic"); rep.viol("header:c08:init-panic", "ensure_initialized panics", format!("{{\"quality\":{},\"lgwin\":{},\"lgblock\":{}}}", q, lgwin, lgb)); }
+                            Ok((q2, w2, b2, rbsize, bs)) => {
+                                let rb_bits = 31 - (rbsize as u32).leading_zeros() as i32;
+                                corr.case(&format!("header lgblock {} {} {} {}", q, lgwin, lgb, b(lw)), &format!("{} {} {} {}", q2, w2, b2, rb_bits));
+                                if bs != 1usize << b2 { rep.viol("header:c08:block-size", "input_block_size != 2^lgblock", format!("{{\"quality\":{},\"lgwin\":{},\"lgblock\":{}}}", q, lgwin, lgb)); }
+                                if q2 >= 2 && b2 < 14 {
+                                    rep.viol("header:c08:block-below-2^14", &format!("quality {} lgwin {}: input block 2^{} is smaller than the 2^14 the size bound pays for", q2, w2, b2), format!("{{\"quality\":{},\"lgwin\":{},\"lgblock\":{},\"large_window\":{}}}", q, lgwin, lgb, lw));
+                                } else { rep.nontrivial += 1; }
+                                rep.count(&format!("c08.lgblock.{}", b2));
+                            }
+                        }
+                    }
+                }
+            }
+        }
+    }
     // ---- (a) the bound formula, digest protocol
     let mut ranges: Vec<(u64, u64)> = vec![(0, 65)];
     for k in 1..=4096u64 { ranges.push((k * (1 << 14) - 64, 129)); }
@@ -862,6 +897,16 @@ fn run_c08(args: &Args, corr: &mut Corr, rep: &mut Report) {
                         scases.push((Cfg { q, lgwin: if lw { 26 } else { 22 }, lw, cat, app, dict: !cat, magic, hint }, n, kind, chunk));
                     }
                 }
+            }
+        }
+    }
+    // small windows at the qualities whose block size is fixed (2, 3) or derived from lgblock (4):
+    // incompressible input of 64-256 KiB, never flushed (size oracle + Guard/BlocksOK checks only)
+    for q in 2..=4 {
+        for lgwin in 10..=16 {
+            for (j, &n) in [65536usize, 131074, 262144].iter().enumerate() {
+                let chunk = if (j + lgwin as usize) % 2 == 0 { usize::MAX / 2 } else { 1000 };
+                scases.push((Cfg { q, lgwin, lw: false, cat: false, app: false, dict: true, magic: false, hint: 0 }, n, 0, chunk));
             }
         }
     }
